@@ -299,18 +299,37 @@ func (l *irLoader) loadRule(group *ir.RuleGroup, rule *ir.Rule) error {
 		}
 	}
 	for _, pat := range rule.CommentPatterns {
-		if err := l.loadCommentRule(proto, rule, pat.Value, pat.Line); err != nil {
+		if err := l.loadCommentRule(proto, info, rule, pat.Value, pat.Line); err != nil {
 			return err
 		}
 	}
 	return nil
 }
 
-func (l *irLoader) loadCommentRule(resultProto goRule, rule *ir.Rule, src string, line int) error {
+func (l *irLoader) loadCommentRule(resultProto goRule, filterInfo filterInfo, rule *ir.Rule, src string, line int) error {
 	dst := l.res.universal
 	pat, err := regexp.Compile(src)
 	if err != nil {
 		return l.errorf(rule.Line, err, "compile regexp")
+	}
+	groupNames := make(map[string]struct{})
+	for _, name := range pat.SubexpNames() {
+		if name != "" {
+			groupNames[name] = struct{}{}
+		}
+	}
+	for filterVar := range filterInfo.Vars {
+		if filterVar == "$$" {
+			continue // OK: a predefined var for the "entire match"
+		}
+		if _, ok := groupNames[filterVar]; !ok {
+			return l.errorf(rule.Line, nil, "filter refers to a non-existing var %s", filterVar)
+		}
+	}
+	if loc := resultProto.location; loc != "" && loc != "$$" {
+		if _, ok := groupNames[loc]; !ok {
+			return l.errorf(rule.Line, nil, "At() refers to a non-existing var %s", loc)
+		}
 	}
 	resultBase := resultProto
 	resultBase.line = line
@@ -360,6 +379,12 @@ func (l *irLoader) loadSyntaxRule(group *ir.RuleGroup, resultProto goRule, filte
 		_, ok := info.Vars[filterVar]
 		if !ok {
 			return l.errorf(rule.Line, nil, "filter refers to a non-existing var %s", filterVar)
+		}
+	}
+
+	if loc := result.location; loc != "" && loc != "$$" {
+		if _, ok := info.Vars[loc]; !ok {
+			return l.errorf(rule.Line, nil, "At() refers to a non-existing var %s", loc)
 		}
 	}
 
